@@ -106,6 +106,48 @@ def rand_cmd(r):
     return g + ["rename", s, t, r.choice([".", "nonexistent", "a.txt"])] + opts
 
 
+GRAMMAR_SKIP_CMDS = {"init", "test-lock", "help"}          # init writes git configuration; test-lock sleeps
+GRAMMAR_SKIP_OPTS = {"commit", "help", "version"}          # --commit would run git in whatever repository encloses the sandbox
+VALUE_POOL = ["old_name", "x", "", "*", "[", "(", "^a", "src/**", "a.txt", "API,ID", "3", "-1", "99999999999999999999", "é", "a,b"]
+
+
+def grammar_cmd(r, grammar):
+    """a command line drawn from the REAL clap grammar (dumped by the harness): any subcommand, any subset of its options, every
+    enumerated value of every option (singly and in lists where the option has a delimiter), free values from a pool"""
+    subs = [sc for sc in grammar["subcommands"] if sc["name"] not in GRAMMAR_SKIP_CMDS]
+    sc = r.choice(subs)
+    argv = ["--no-auto-init"] + (["-y"] if r.random() < 0.9 else [])
+    if r.random() < 0.2:
+        argv.append("-" + "u" * r.randint(1, 3))
+    argv.append(sc["name"])
+    pos = sorted([a for a in sc["args"] if a["positional"]], key=lambda a: a["index"] or 0)
+    for a in pos:
+        if a["required"] or r.random() < 0.5:
+            if a["id"] in ("paths",):
+                argv += r.choice([["."], ["nonexistent"], [".", "."], []])
+            elif a["id"] == "id":
+                argv.append(r.choice(["latest", "deadbeef", "", "0123456789abcdef"]))
+            else:
+                argv.append(r.choice(TERMS))
+    opts = [a for a in sc["args"] if not a["positional"] and not a["global"] and a["long"] and a["id"] not in GRAMMAR_SKIP_OPTS
+            and a["long"] not in GRAMMAR_SKIP_OPTS]
+    for a in r.sample(opts, min(len(opts), r.choice([0, 1, 1, 2, 3, 5]))):
+        flag = "--" + a["long"]
+        if not a["takes_value"]:
+            argv.append(flag)
+            continue
+        poss = a["possible"]
+        if poss:
+            if a.get("delimiter") and r.random() < 0.5:
+                val = a["delimiter"].join(r.sample(poss, r.randint(1, min(4, len(poss)))))
+            else:
+                val = r.choice(poss)
+        else:
+            val = r.choice(VALUE_POOL)
+        argv += [flag, val]
+    return argv
+
+
 def library_stream(R, H, r, fails, stats):
     """modelled functions under catch_unwind on malformed inputs"""
     ask0 = H.ask
@@ -166,18 +208,23 @@ def run(R):
     fails = []
     stats = {"library_calls": 0, "cli_runs": 0, "exit_codes": {}, "builds": ["debug"]}
     library_stream(R, H, r, fails, stats)
+    grammar = H.ask({"op": "clap_dump"}).get("ok")
     H.close()
+    if not grammar:
+        fails.append({"why": "the clap grammar could not be dumped: the option-combination stream is vacuous"})
+        grammar = {"subcommands": []}
     bins = [cli.cli_bin()]
     if R.tier == "thorough":
         p, out = core.build_cli(release=True)
         if p:
             bins.append(str(p))
             stats["builds"].append("release")
-    n = 120 if R.tier == "quick" else 5000
+    n = 200 if R.tier == "quick" else 8000
     for i in range(n):
         tree = make_tree(r)
         with cli.Sandbox(tree) as sb:
-            seq = [rand_cmd(r) for _ in range(r.randint(1, 4))]
+            seq = [grammar_cmd(r, grammar) if grammar["subcommands"] and r.random() < 0.5 else rand_cmd(r) for _ in range(r.randint(1, 4))]
+            stats["grammar_drawn"] = stats.get("grammar_drawn", 0) + sum(1 for a in seq if a[0] == "--no-auto-init" and len(a) > 1)
             for args in seq:
                 for b in bins[:1] if i % 2 else bins:
                     rc, o, e = sb.run(args, bin=b, timeout=60)
